@@ -78,12 +78,19 @@ def classify(ctx, lines, ln, n):
         op = ""
     # F17 concerns create / ensure only, F9 and F16 alter drop (and what follows it)
     cand = [k for k in KEYS if (k[1].startswith("F17") if op in ("Create", "Ensure") else not k[1].startswith("F17"))]
-    for cfg, key in cand:
+    def explains(cfg):
         r = ctx.tlc_trace("TraceSchema.tla", cfg, pre, timeout=300, ntraces=0)
         if r["accepted"]:
             ctx.cov["events_validated"] -= r["events"]   # classification runs are not evidence
+        return r["accepted"]
+    # all deviations together first: if even that model does not explain the scenario
+    # (the usual case once the defects are repaired) no single one does
+    if op not in ("Create", "Ensure") and not explains(KEYS[-1][0]):
+        return None
+    for cfg, key in cand[:-1] if op not in ("Create", "Ensure") else cand:
+        if explains(cfg):
             return key
-    return None
+    return None if op in ("Create", "Ensure") else KEYS[-1][1]
 
 
 def validate(ctx, trace, budget_s=240):
